@@ -6,7 +6,7 @@
 
 use serde_json::{Value, json};
 use vcore::Evidence;
-use vcore::gen01::{control_program, control_program_in_sub, describe, forests};
+use vcore::gen01::{control_program, control_program_in_sub, control_program_shared, describe, forests};
 use vcore::gprint::print_default;
 use vcore::refsem::run_reference;
 use vcore::rewrite::{RULES, rewrite};
@@ -171,8 +171,9 @@ pub fn worker(case: &Value) -> Value {
         let nodes = case["nodes"].as_u64().unwrap() as usize;
         let last = case["last"].as_bool().unwrap_or(false);
         let in_sub = case["sub"].as_bool().unwrap_or(false);
+        let shared = case["shared"].as_bool().unwrap_or(false);
         for f in forests(nodes).iter().skip(lo).take(hi - lo) {
-            bases.push((if in_sub { control_program_in_sub(f, last) } else { control_program(f, last) }, describe(f)));
+            bases.push((if shared { control_program_shared(f, last) } else if in_sub { control_program_in_sub(f, last) } else { control_program(f, last) }, describe(f)));
         }
     }
     let mut bads = vec![];
@@ -271,6 +272,14 @@ pub fn drive(tier: &str) -> i32 {
                 lo += chunk;
             }
             plan.push(json!({"nodes": nodes, "children_in_last_body": last, "inside_sub": in_sub, "base_programs": total}));
+        }
+        if nodes <= if quick { 2 } else { 3 } {
+            let mut lo = 0;
+            while lo < total {
+                cases.push(json!({"nodes": nodes, "lo": lo, "hi": (lo + 25).min(total), "last": false, "sub": true, "shared": true}));
+                lo += 25;
+            }
+            plan.push(json!({"nodes": nodes, "inside_sub": true, "variables": "DIM SHARED, read through a FUNCTION in every loop body", "base_programs": total}));
         }
     }
     // programs with one failing statement inside a rewritable construct, under every handler mode
